@@ -3,6 +3,7 @@ import Genshi.WireCore
 import Genshi.Model.OutputPipeline
 import Genshi.Model.OutputMarkupAttr
 import Genshi.Model.OutputFlattenCache
+import Genshi.Model.OutputFlatPipeline
 namespace Driver.C09
 open Genshi Genshi.Output Genshi.Sexp
 
@@ -95,6 +96,13 @@ def handle : List Sexp → Option Sexp
       let evs ← items.mapM txev?
       let (hits, stores) := cstats p { st := Xml.FSt.init } evs (0, 0)
       pure (.list [.list ((Xml.cflatten p cache evs).map tfev), ofNat hits, ofNat stores])
+  -- flatser <method> <cache> <drop_xml_decl> <pref> ( item … ): flattener + main loop, same cache flag
+  | [.atom "flatser", m, cache, dropd, p, .list items] => do
+      let m ← method? m
+      let cache ← cache.toBool?; let dropd ← dropd.toBool?
+      let p ← cpref? p
+      let evs ← items.mapM txev?
+      pure (.list [.atom "ok", .str (serT m ⟨dropd⟩ p cache evs)])
   -- loopm <method> <cache> <drop_xml_decl> ( item … ): the repaired main loop on typed events
   | [.atom "loopm", m, cache, dropd, .list items] => do
       let m ← method? m
